@@ -1342,8 +1342,8 @@ class World:
             rec, obs = read_record(H.D.info), observe(H.circ._psi)
             exp.append((cellno, rec, obs))
             role = "actor" if j == actor else "bystander"
-            A = self.holders[actor]
-            rel = relation or (H.how if H.how != "root" else A.how if A.how != "root" else "copy")
+            # how the younger of (this holder, the acting holder) came into being
+            rel = relation or self.holders[max(j, actor)].how
             if j != actor or check_actor:
                 bad = record_violations(rec, obs)
                 if bad:
@@ -1626,6 +1626,111 @@ def world_stream(ctx):
             ctx.sample({"world": wspec, "ops": W.ops_done[:5]})
         if W.wsteps:
             PENDING.append((800000 + h, W.coq_case(), "world", W))
+
+
+def run_lazy_world(ctx, lspec, ops=None, nops=14):
+    """a family of CircuitMPSLazy circuits related by copy().  Oracle only (a test, not a theorem: the lazily
+    stacked gate layers are not in the Coq model): two-qubit gates are stacked lazily and the record is only
+    meaningful when no layer is pending, so a holder is checked whenever it is in plain MPS form (nothing
+    pending): its own record and flags against its own tensors, its state against its own gate history applied
+    to a dense vector (1e-6: method='dm' goes through eigendecompositions), and the value of the query that
+    was just made"""
+    import quimb.tensor as qtn
+
+    rng = ctx.rng
+    N = lspec["N"]
+    circ = qtn.CircuitMPSLazy(N, cutoff=0.0, compress_every=lspec["compress_every"], method=lspec["method"])
+    ref0 = np.zeros(2**N, dtype=complex)
+    ref0[0] = 1.0
+    holders = [[circ, ref0]]
+    done = []
+    key0 = "circuit_world:CircuitMPSLazy:copy:"
+
+    def payload(extra=None):
+        d = {"lazy_world": lspec, "ops": done}
+        if extra:
+            d.update(extra)
+        return d
+
+    def check_all(what, actor):
+        for j, (c, ref) in enumerate(holders):
+            if c._uncompressed_sites or c._psi.num_tensors != N:
+                ctx.bump("lazy_world_holder_pending")
+                continue
+            role = "actor" if j == actor else "bystander"
+            rec, obs = read_record(c.gate_opts["info"]), observe(c._psi)
+            ctx.bump("lazy_world_holder_checked")
+            bad = record_violations(rec, obs) + flag_violations(obs)
+            if bad:
+                ctx.violation(key0 + role + ":stale_record", f"CircuitMPSLazy family: after {what} on holder {actor}, holder {j} (nothing pending) has "
+                              f"record {rec} but " + "; ".join(bad[:2]), payload({"holder": j, "actor": actor}))
+                return False
+            got = dense_of(c._psi)
+            if not close(got, ref, scale=float(np.abs(ref).max()), tol=1e-6):
+                ctx.violation(key0 + role + ":state", f"CircuitMPSLazy family: after {what} on holder {actor}, the state of holder {j} differs from its own "
+                              f"gate history applied to the dense state (max deviation {float(np.abs(got - ref).max()):.3g})", payload({"holder": j, "actor": actor}))
+                return False
+        return True
+
+    for step in range(len(ops) if ops is not None else nops):
+        if ops is not None:
+            op = ops[step]
+        else:
+            n = len(holders)
+            r = rng.random()
+            k = rng.randrange(n)
+            if (n == 1 and step >= lspec["warmup"]) or (n < 3 and r < 0.08):
+                op = {"w": "copy", "k": k}
+            elif r < 0.30:
+                lab = rng.choice(["H", "T", "RX", "RY", "RZ"])
+                op = {"w": "gate", "k": k, "lab": lab, "params": [round(rng.uniform(-3, 3), 3)] if lab[0] == "R" else [], "q": [rng.randrange(N)]}
+            elif r < 0.65:
+                lab = rng.choice(["CNOT", "CZ", "RZZ", "ISWAP"])
+                op = {"w": "gate", "k": k, "lab": lab, "params": [round(rng.uniform(-3, 3), 3)] if lab == "RZZ" else [], "q": rng.sample(range(N), 2)}
+            elif r < 0.90:
+                op = {"w": "local_expectation", "k": k, "q": rng.sample(range(N), rng.choice([1, 1, 2])), "seed": rng.randrange(1 << 30)}
+            else:
+                op = {"w": "fidelity_estimate", "k": k}
+        done.append(op)
+        k = op["k"]
+        c, ref = holders[k]
+        kind = op["w"]
+        ctx.bump("lazy_world_op:" + kind)
+        ctx.count(("lazy_world", kind, len(holders), str(read_record(c.gate_opts["info"]))), kind != "gate")
+        try:
+            if kind == "copy":
+                holders.append([c.copy(), ref.copy()])
+            elif kind == "gate":
+                G = np.asarray(qtn.Gate(op["lab"], tuple(op["params"]), tuple(op["q"])).array).reshape(2 ** len(op["q"]), -1)
+                c.apply_gate(op["lab"], *op["params"], *op["q"])
+                holders[k][1] = dense_apply(ref, [2] * N, G, list(op["q"]))
+            elif kind == "local_expectation":
+                G = rand_general(np.random.default_rng(op["seed"]), 2 ** len(op["q"]), True)
+                val = complex(c.local_expectation(G, tuple(op["q"])))
+                want = dense_expec(ref, [2] * N, G, list(op["q"]))
+                if abs(val - want) > 1e-6 * max(1.0, abs(want)):
+                    ctx.violation(key0 + "local_expectation", f"CircuitMPSLazy.local_expectation {val} of holder {k} vs its gate history on the dense state {want}",
+                                  payload({"holder": k}))
+                    return
+            else:
+                fe = float(c.fidelity_estimate())
+                n2 = float(np.vdot(ref, ref).real)
+                if abs(fe - n2) > 1e-6 * max(1.0, n2):
+                    ctx.violation(key0 + "fidelity_estimate", f"CircuitMPSLazy.fidelity_estimate {fe} of holder {k}; dense <psi|psi> = {n2}", payload({"holder": k}))
+                    return
+        except Exception as e:
+            ctx.violation(key0 + kind + ":raised", f"CircuitMPSLazy family: {kind} on holder {k} raised {type(e).__name__}: {str(e)[:140]}", payload({"holder": k}))
+            return
+        if not check_all(kind, k):
+            return
+
+
+def lazy_world_stream(ctx):
+    rng = ctx.rng
+    for it in range(ctx.n(16, 120)):
+        lspec = {"N": rng.randint(3, 6), "compress_every": rng.choice([1, 2, 3]), "method": rng.choice(["dm", "direct", "zipup"]), "warmup": rng.randint(2, 8)}
+        ctx.bump("lazy_world:" + lspec["method"])
+        run_lazy_world(ctx, lspec, nops=rng.randint(8, 20))
 
 
 def histories_stream(ctx):
@@ -1923,8 +2028,8 @@ def run(ctx):
     t = time.time()
     setup(ctx)
     times = {"coq_props": round(time.time() - t, 1)}
-    for fn in (corpus_stream, findings_stream, rejected_stream, histories_stream, circuit_psi0_stream, world_stream, flush, methods_stream,
-               circuit_stream):
+    for fn in (corpus_stream, findings_stream, rejected_stream, histories_stream, circuit_psi0_stream, world_stream, flush, lazy_world_stream,
+               methods_stream, circuit_stream):
         t = time.time()
         ctx.stage(fn)
         times[fn.__name__] = round(time.time() - t, 1)
@@ -1965,7 +2070,9 @@ def replay(ctx, path):
     with open(path) as f:
         d = json.load(f)
     d = d.get("replay", d)
-    if isinstance(d, dict) and "world" in d and "ops" in d:
+    if isinstance(d, dict) and "lazy_world" in d and "ops" in d:
+        run_lazy_world(ctx, d["lazy_world"], ops=d["ops"])
+    elif isinstance(d, dict) and "world" in d and "ops" in d:
         W = run_world(ctx, d["world"], ops=d["ops"], hid=1)
         if W.wsteps:
             failed, errors = ctx.coq_cases("replay", WORLD_HEADER, [(1, W.coq_case())], shard=5)
